@@ -43,6 +43,17 @@ def run(tier, seed):
                 elif rnd.random() < 0.2:
                     s = rnd.choice([':scope', ':not(:scope)', ':is(:scope, p)', '&', ':scope > *', '* > :scope', ':not(&)', 'div:scope, p',
                                     ':scope:not(.x)', ':where(:scope) ~ *'])
+                uris_ = sorted({e.namespace for e in elements if getattr(e, 'namespace', None)})
+                if uris_ and rnd.random() < 0.3:
+                    # an HTML-only pseudo-class (evaluated with an internal namespace map) next to a selector that needs the caller's map
+                    from props.C11 import HTML_ONLY
+                    nsmap = dict(nsmap or {})
+                    nsmap['zz'] = rnd.choice(uris_)
+                    parts = [rnd.choice(HTML_ONLY + [':dir(ltr)', ':link', ':enabled']), 'zz|' + rnd.choice(['*', '*'] + [sv.escape(n_) for n_ in pools['names']])]
+                    if rnd.random() < 0.3:
+                        parts.append('[zz|' + sv.escape(rnd.choice(pools['attrs'])).split('|')[-1] + ']')
+                    rnd.shuffle(parts)
+                    s = ', '.join(parts) if rnd.random() < 0.7 else f'{parts[1]}:not({parts[0]})' if not parts[0].startswith('zz|') and not parts[1].startswith(':') else ', '.join(parts)
                 use_custom = ':--' in s or rnd.random() < 0.3
                 flags = rnd.choice([0, 0, sv.DEBUG]) if False else 0
                 kw = {}
